@@ -25,13 +25,14 @@ type op struct {
 }
 
 type rlCase struct {
-	InitMS  int
-	MaxMul  int  // MaxDelay = Init * MaxMul
-	Cap     int  // 0 = unset
-	Exact   bool // settled single Adds, prompt consumer, exact model
-	Slow    bool // consumer reads only on command (racy mode only)
-	Ops     []op
-	EndWith string // close | cancel | close+cancel
+	InitMS   int
+	MaxMul   int  // MaxDelay = Init * MaxMul + MaxExtra
+	MaxExtra int  // milliseconds beyond the whole multiple (MaxDelay need not be a multiple of InitialDelay, let alone a power-of-two multiple)
+	Cap      int  // 0 = unset
+	Exact    bool // settled single Adds, prompt consumer, exact model
+	Slow     bool // consumer reads only on command (racy mode only)
+	Ops      []op
+	EndWith  string // close | cancel | close+cancel
 }
 
 func opStr(o op) string {
@@ -54,7 +55,7 @@ func (c rlCase) String() string {
 	for _, o := range c.Ops {
 		p = append(p, opStr(o))
 	}
-	return fmt.Sprintf("coalescing{init=%dms max=%dms cap=%d exact=%v slow=%v ops=[%s] end=%s}", c.InitMS, c.InitMS*c.MaxMul, c.Cap, c.Exact, c.Slow, strings.Join(p, " "), c.EndWith)
+	return fmt.Sprintf("coalescing{init=%dms max=%dms cap=%d exact=%v slow=%v ops=[%s] end=%s}", c.InitMS, c.InitMS*c.MaxMul+c.MaxExtra, c.Cap, c.Exact, c.Slow, strings.Join(p, " "), c.EndWith)
 }
 
 // model of the limiter for settled single Adds (deterministic).
@@ -112,7 +113,7 @@ func runRL(t *testing.T, c rlCase) (out outcome, err error) {
 	var errs vk.Errs
 	berr := vk.Bubble(t, c.String(), func() {
 		init := time.Duration(c.InitMS) * time.Millisecond
-		max := init * time.Duration(c.MaxMul)
+		max := init*time.Duration(c.MaxMul) + time.Duration(c.MaxExtra)*time.Millisecond
 		opts := ratelimiting.OptionsCoalescing{InitialDelay: &init, MaxDelay: &max}
 		if c.Cap > 0 {
 			cp := c.Cap
@@ -444,6 +445,11 @@ func rel(ts []time.Time, adds []time.Time) []time.Duration {
 	return out
 }
 
+// genMaxExtra: mostly none; otherwise a part of one InitialDelay, so that MaxDelay / InitialDelay is not a whole number.
+func genMaxExtra(rt *rapid.T, initMS int) int {
+	return rapid.SampledFrom([]int{0, 0, 0, 1, initMS / 2, initMS - 1}).Draw(rt, "maxExtraMS")
+}
+
 func genCase(rt *rapid.T, exact bool) rlCase {
 	c := rlCase{
 		InitMS: rapid.SampledFrom([]int{2, 10, 100}).Draw(rt, "initMS"),
@@ -451,6 +457,7 @@ func genCase(rt *rapid.T, exact bool) rlCase {
 		Cap:    rapid.SampledFrom([]int{0, 0, 1, 2, 3, 4}).Draw(rt, "cap"),
 		Exact:  exact,
 	}
+	c.MaxExtra = genMaxExtra(rt, c.InitMS)
 	if !exact {
 		c.Slow = rapid.IntRange(0, 3).Draw(rt, "slow") == 0
 	}
